@@ -92,9 +92,30 @@ func runC17(c *Ctx) {
 				}
 			}
 		}
+		// the homestead (low-s) flag that reaches ValidateSignatureValues on this path is the constant true:
+		// either recoverPlain passes true itself, or it passes a parameter for which this call supplies true
+		isTrue := func(v ssa.Value) bool {
+			cv, ok := v.(*ssa.Const)
+			return ok && cv.Value != nil && cv.Value.Kind() == constant.Bool && constant.BoolVal(cv.Value)
+		}
 		hs := false
-		if cv, ok := callArgs(ci)[4].(*ssa.Const); ok && cv.Value != nil && cv.Value.Kind() == constant.Bool && constant.BoolVal(cv.Value) {
-			hs = true
+		for _, vc := range callInstrs(rp) {
+			if o := calleeObj(vc); o == nil || o.Name() != "ValidateSignatureValues" {
+				continue
+			}
+			va := callArgs(vc)
+			if len(va) < 4 {
+				continue
+			}
+			flag := stripConv(va[3])
+			if isTrue(flag) {
+				hs = true
+			}
+			for i, prm := range rp.Params {
+				if ssa.Value(prm) == flag && i < len(callArgs(ci)) && isTrue(callArgs(ci)[i]) {
+					hs = true
+				}
+			}
 		}
 		hashOK := false
 		if cc, ok := stripConv(callArgs(ci)[0]).(*ssa.Call); ok && sameFunc(calleeObj(cc), hf.Object().(*types.Func)) {
@@ -102,7 +123,7 @@ func runC17(c *Ctx) {
 		}
 		c.sites += 3
 		c.Check(fname(sf)+"#replay-protection-gates", ci.Pos(), prot && net, ifelse(prot && net, "dominated by Protected() and NetworkId == signer's", fmt.Sprintf("a sender is recovered without the replay tests (protected=%v network-id=%v): a transaction of another network is accepted", prot, net)))
-		c.Check(fname(sf)+"#low-s-only", ci.Pos(), hs, ifelse(hs, "recoverPlain(…, homestead=true)", "high-s signatures are accepted: a third party can produce a second valid encoding of the same transaction"))
+		c.Check(fname(sf)+"#low-s-only", ci.Pos(), hs, ifelse(hs, "ValidateSignatureValues runs with homestead = true on the Sender path", "high-s signatures are accepted: a third party can produce a second valid encoding of the same transaction"))
 		c.Check(fname(sf)+"#recovers-over-signing-hash", ci.Pos(), hashOK, ifelse(hashOK, "recovers over s.Hash(tx)", "the sender is recovered over something else than the signing hash"))
 	}
 	var vsv, ecr ssa.CallInstruction
@@ -116,8 +137,8 @@ func runC17(c *Ctx) {
 			}
 		}
 	}
-	okv := vsv != nil && ecr != nil && gatedByBool(ecr, vsv, 0, true) && stripConv(callArgs(vsv)[3]) == ssa.Value(rp.Params[4])
-	c.Check(fname(rp)+"#validate-before-recover", rp.Pos(), okv, ifelse(okv, "Ecrecover is dominated by ValidateSignatureValues(V, R, S, homestead) == true", "signature values are not validated (with the caller's homestead flag) before recovery"))
+	okv := vsv != nil && ecr != nil && gatedByBool(ecr, vsv, 0, true)
+	c.Check(fname(rp)+"#validate-before-recover", rp.Pos(), okv, ifelse(okv, "Ecrecover is dominated by ValidateSignatureValues(V, R, S, ·) == true", "signature values are not validated before recovery"))
 	snd := w.Fn("core/types", "", "Sender")
 	c.sawFunc(fname(snd))
 	var eq, sndCall ssa.CallInstruction
